@@ -48,6 +48,7 @@ class PTranslator(F.FTranslator):
 
     def name_of(self, n, env):
         lv = self.pointer(n, env)
+        if lv == ('null',): return '@null'        # an optional argument passed as NULL (e.g. no G term in secp256k1_ecmult): never assigned, reads as 0
         if lv[0] in ('struct', 'array', 'var'): return lv[1]
         if lv[0] == 'elem' and lv[2][0] == 'lit':          # `&sig64[32]`: a 32-byte slice, named by its offset
             return lv[1] if (lv[2][1] == 0 and lv[1] not in self.sliced) else '%s@%d' % (lv[1], lv[2][1])
@@ -84,6 +85,9 @@ class PTranslator(F.FTranslator):
         if short == 'fe_is_odd': return T('feIsOdd', V(0))
         if short in ('gej_set_ge', 'ge_set_gej', 'ge_set_gej_var'): return S('ptSet', V(0), V(1))
         if short in ('gej_clear', 'ge_clear'): return S('ptClear', V(0))
+        if short in ('gej_add_var', 'gej_add_ge_var', 'gej_add_ge'): return S('ptAdd', V(0), V(1), V(2))
+        if short in ('gej_neg', 'ge_neg'): return S('ptNeg', V(0), V(1))
+        if short in ('gej_set_infinity', 'ge_set_infinity'): return S('ptClear', V(0))
         if short == 'ecmult': return S('ecmult', V(0), V(1), V(2), V(3))
         if short == 'ecmult_gen': return S('ecmultGen', V(1), V(2))
         if short in ('gej_is_infinity', 'ge_is_infinity'): return T('ptIsInf', V(0))
@@ -92,12 +96,27 @@ class PTranslator(F.FTranslator):
             e, t = self.expr(a[2], env, out)
             tmp = self.fresh('lift'); out.append(('alg', 'liftX', tmp, V(0), V(1), unidx(K.fold(e)))); return var(tmp), (32, True)
         if name == '__builtin_expect': return self.expr(a[0], env, out)
+        if short == 'scalar_set_b32_seckey':
+            tmp = self.fresh('sk'); out.append(('alg', 'scOfBytesSeckey', tmp, V(0), V(1))); return var(tmp), (32, True)
+        if short == 'scalar_cmov':
+            e, t = self.expr(a[2], env, out); return S('scCmov', V(0), V(1), pfold(unidx(K.fold(e))))
+        if short in ('pubkey_save', 'xonly_pubkey_save'): return S('ptSet', V(0), V(1))
+        if name == 'memset':
+            tgt = self.pointer(a[0], env)
+            if tgt[0] == 'struct': return S('ptClear', tgt[1])          # memset(pubkey, 0, sizeof(*pubkey)): the all-zero object
+            raise Unsupported('memset on ' + str(tgt))
         if short in ('xonly_pubkey_load', 'pubkey_load'): return T('ptLoad', V(1), V(2))
         if short == 'fe_equal': return T('feEqual', V(0), V(1))
         if short == 'schnorrsig_challenge': return S('challenge', V(1), V(2), V(3), V(5))
         if short == 'callback_call':
             out.append(('assign', 'illegal', ('bin', 'add', 32, var('illegal'), lit(1)))); return lit(0), (32, True)
-        raise Unsupported('primitive outside the AlgIR fragment: ' + name)
+        if name.startswith('secp256k1_fe_') or name.startswith('secp256k1_scalar_') or name.startswith('secp256k1_ge') or name.startswith('secp256k1_ecmult') \
+                or name in ('memcpy', 'memset', 'secp256k1_memclear_explicit', 'secp256k1_memcmp_var'):
+            raise Unsupported('primitive outside the AlgIR fragment: ' + name)
+        sub = []                                                     # another library function: inlined as a scope
+        r = self.call_inline_scoped(n, env, sub, want_value)
+        out.append(('scope', sub))
+        return r
 
     def expr(self, n, env, out=None):
         # relational operators on (signed) int: compare with the sign bit flipped, which orders 32-bit two's-complement
@@ -111,10 +130,30 @@ class PTranslator(F.FTranslator):
             op = m['opcode']
             if op in ('>', '>='): ea, eb = eb, ea
             return ('bin', 'lt' if op in ('<', '>') else 'le', 32, fl(ea), fl(eb)), (32, True)
+        if m['kind'] == 'BinaryOperator' and m.get('opcode') in ('&&', '||') and out is not None and self.has_impure_call(m['inner'][1]):
+            # C short-circuit evaluation: the right operand (a call) runs only if the left operand does not decide the result
+            ea, _ = self.expr(m['inner'][0], env, out)
+            tmp = self.fresh('sc'); sub = []
+            eb, _ = self.expr(m['inner'][1], env, sub)
+            nz = ('bin', 'ne', 32, eb, lit(0))
+            if m['opcode'] == '&&': out.append(('ite', ea, sub + [('assign', tmp, nz)], [('assign', tmp, lit(0))]))
+            else: out.append(('ite', ea, [('assign', tmp, lit(1))], sub + [('assign', tmp, nz)]))
+            return var(tmp), (32, True)
         if m['kind'] == 'UnaryOperator' and m.get('opcode') == '*' and out is not None:
             lv = self.pointer(m['inner'][0], env)
             if lv[0] == 'array': return var(lv[1]), (32, True)          # `*recid` read: the int out-parameter as a variable
         return F.FTranslator.expr(self, n, env, out)
+
+    PURE = ('secp256k1_scalar_is_zero', 'secp256k1_scalar_is_high', 'secp256k1_fe_equal', 'secp256k1_fe_impl_is_odd', 'secp256k1_gej_is_infinity',
+            'secp256k1_ge_is_infinity', 'secp256k1_gej_eq_x_var', 'secp256k1_fe_impl_cmp_var', '__builtin_expect')
+
+    def has_impure_call(self, n):
+        if n.get('kind') == 'CallExpr':
+            try:
+                if self.callee_name(n) not in self.PURE: return True
+            except Unsupported:
+                return True
+        return any(self.has_impure_call(c) for c in n.get('inner', []) if isinstance(c, dict))
 
     def struct_copy(self, dst, rhs, qt, env, out):
         while rhs['kind'] in ('ParenExpr', 'ImplicitCastExpr') and (rhs['kind'] == 'ParenExpr' or rhs.get('castKind') in ('LValueToRValue', 'NoOp')):
@@ -127,6 +166,15 @@ class PTranslator(F.FTranslator):
 
     def global_const(self, name):
         if name in self.globals: return self.globals[name]
+        vd = self.front.global_var(name)
+        if vd['type']['qualType'].replace('const ', '').strip() == 'secp256k1_scalar':
+            save = self.prologue; self.prologue = []
+            K.Translator.global_const(self, name)
+            stores, self.prologue = self.prologue, save
+            val = sum(s_[3][1] << (64 * s_[2][1]) for s_ in stores if s_[0] == 'store')        # native configuration: 4x64 limbs
+            self.prologue.append(('alg', 'scConst', 'g.' + name, val))
+            self.globals[name] = ('struct', 'g.' + name)
+            return self.globals[name]
         r = F.FTranslator.global_const(self, name)        # emits ('fe','const', gname, value) into the prologue
         self.prologue = [('alg', 'feConst', s[2], s[3]) if (s[0] == 'fe' and s[1] == 'const') else s for s in self.prologue]
         return r
@@ -160,9 +208,11 @@ def clean(ss):
             c = pfold(unidx(s[1]))
             if c[0] == 'lit': out.extend(clean(s[2] if c[1] else s[3]))       # decided at translation time (ARG_CHECK on a non-NULL pointer)
             else: out.append(('ite', c, clean(s[2]), clean(s[3])))
-        elif k == 'scope': out.extend(clean(s[1]))
+        elif k == 'scope':
+            sub = clean(s[1])
+            if sub: out.append(('scope', sub))
         elif k == 'ret': out.append(('int', 'ret', pfold(unidx(s[1])))); out.append(('ret',))
-        elif k == '__return__': raise Unsupported('return inside an inlined callee')
+        elif k == '__return__': out.append(('ret',))
         elif k == 'fe': raise Unsupported('field-level primitive in a protocol core: ' + str(s[1]))
         else: raise Unsupported('statement ' + k)
     return out
@@ -181,12 +231,24 @@ def lean_pstmts(ss, ind):
             items.append('%s.%s %s' % (pad, s[1], ' '.join(parts)))
         elif s[0] == 'int': items.append('%s.int "%s" %s' % (pad, s[1], K.lean_expr(s[2])))
         elif s[0] == 'ite': items.append('%s.ite %s [\n%s\n%s] [\n%s\n%s]' % (pad, K.lean_expr(s[1]), lean_pstmts(s[2], ind + 2), pad, lean_pstmts(s[3], ind + 2), pad))
+        elif s[0] == 'scope': items.append('%s.scope [\n%s\n%s]' % (pad, lean_pstmts(s[1], ind + 2), pad))
         elif s[0] == 'ret': items.append('%s.ret' % pad)
     return ',\n'.join(items)
 
 
 SETS = {'schnorr': [
     ('verify', 'secp256k1_schnorrsig_verify'),
+], 'keys': [
+    ('eckey_privkey_tweak_add', 'secp256k1_eckey_privkey_tweak_add'),
+    ('eckey_privkey_tweak_mul', 'secp256k1_eckey_privkey_tweak_mul'),
+    ('eckey_pubkey_tweak_add', 'secp256k1_eckey_pubkey_tweak_add'),
+    ('eckey_pubkey_tweak_mul', 'secp256k1_eckey_pubkey_tweak_mul'),
+    ('ec_seckey_tweak_add', 'secp256k1_ec_seckey_tweak_add'),
+    ('ec_seckey_tweak_mul', 'secp256k1_ec_seckey_tweak_mul'),
+    ('ec_pubkey_tweak_add', 'secp256k1_ec_pubkey_tweak_add'),
+    ('ec_pubkey_tweak_mul', 'secp256k1_ec_pubkey_tweak_mul'),
+    ('ec_seckey_negate', 'secp256k1_ec_seckey_negate'),
+    ('ec_pubkey_negate', 'secp256k1_ec_pubkey_negate'),
 ], 'ecdsa': [
     ('sig_verify', 'secp256k1_ecdsa_sig_verify'),
     ('sig_sign', 'secp256k1_ecdsa_sig_sign'),
